@@ -234,6 +234,11 @@ def run(ctx):
                                         {'name': 'L2', 'callers': [{'c': 2, 'k': 'a'}], 'life': 'full'}],
                               'func': {'dur': 1.0}, 'mapping': 'dict'}, 2),
     ]
+    small.append(('dfs_3loops_earlyclose',
+                  {'loops': [{'name': 'L1', 'callers': [{'c': 1, 'k': 'a'}], 'life': 'early_close', 'main_dur': 0.0},
+                             {'name': 'L2', 'callers': [{'c': 2, 'k': 'a'}], 'life': 'full'},
+                             {'name': 'L3', 'callers': [{'c': 3, 'k': 'a'}], 'life': 'full'}],
+                   'func': {'dur': 1.0}, 'mapping': 'dict'}, 2))
     for fam, sc, bound in small:
         if ctx.prop == 'C01' and sc['mapping'] == 'tiny':
             continue
